@@ -1045,13 +1045,14 @@ def _run_pde(case, ctx, cuqi, rs):
         if obs in OBS_LEADING or obs == "reversed": ctx.count("observation_leading_segment_checked")
     # lengths: forward output, exactData and data all have the size of the range geometry (= number of observation points)
     ctx.count("observation_length_checked")
+    vec = lambda a: int(np.shape(a)[0]) if np.ndim(a) == 1 else -1 - int(np.ndim(a))      # a vector of that length, nothing else
     lens = {"range_geometry.par_dim": int(tp.model.range_geometry.par_dim), "model.range_dim": int(tp.model.range_dim),
-            "exactData": int(np.size(tp.exactData)), "data": int(np.size(tp.data))}
+            "exactData": vec(tp.exactData), "data": vec(tp.data)}
     for nm_, x_, kw_ in (("forward(par)", pts[0], {}), ("forward(funvals)", fvals[0], {"is_par": False})):
         k2, y2 = core.outcome(tp.model.forward, x_, refusal=core.REFUSAL_TYPES_BROAD, **kw_)
-        lens[nm_] = int(np.size(y2)) if k2 == "value" else -1
+        lens[nm_] = vec(y2) if k2 == "value" else -1
     if any(v != len(opos) for v in lens.values()):
-        ctx.violation("observation_length_mismatch", cfg, detail=f"{len(opos)} observation points, but sizes are {lens}")
+        ctx.violation("observation_length_mismatch", cfg, detail=f"{len(opos)} observation points, but the vector lengths are {lens} (negative: not a vector, -1-ndim)")
     if prob == "abel" and case["field"] == "none" and mp is None:
         M = np.asarray(tp.model.get_matrix())
         ctx.count("matrix_entries_checked", dim * dim)
